@@ -115,3 +115,152 @@ def parse_summary(out):
         return None
     bad = [(int(a), int(b)) for a, b in re.findall(r"\((\d+)(?:%nat)?, (\d+)(?:%nat)?\)", m.group(3))]
     return int(m.group(1)), int(m.group(2)), bad
+
+
+# ---------------------------------------------------------------------------------------------
+# program generators.  Slot layout: replicas 0..R-1 (replica i uses node REPL_NODE[i]),
+# snapshots R..R+S-1, nested values for maps 10..13.
+REPL_NODE = [1, 4, 7, 2]          # "a", "b", "n2", "aa"
+BIG = [0, 1, 2, 3, 5, 2 ** 32, 2 ** 63 - 1, 2 ** 63, 2 ** 64 - 1]
+
+
+def local_ops(t, r, rng, small=False):
+    """alphabet of local operations of replica slot r for type t (as functions of the rng)"""
+    n = REPL_NODE[r]
+    ev = [1, 2] if small else [1, 2, 4, 5, 3, 10]
+    if t == "g":
+        return [{"o": "inc", "d": r, "s": r, "n": n, "v": v} for v in ([1, 3] if small else BIG)]
+    if t == "pn":
+        vs = [1, 3] if small else BIG
+        return [{"o": "inc", "d": r, "s": r, "n": n, "v": v} for v in vs] + [{"o": "dec", "d": r, "s": r, "n": n, "v": v} for v in vs]
+    if t == "f":
+        return [{"o": "enable", "d": r, "s": r}]
+    if t == "mv":
+        return [{"o": "mvset", "d": r, "s": r, "n": n, "e": e} for e in ev]
+    if t == "s":
+        return [{"o": "add", "d": r, "s": r, "n": n, "e": e} for e in ev] + [{"o": "rem", "d": r, "s": r, "e": e} for e in ev]
+    raise ValueError(t)
+
+
+def gen_random_prog(pid, t, rng, nops, R=3, S=3, lww_unique=True, with_delta=True, with_compact=True, laws=4):
+    """random program for type t with R replicas and S snapshot slots, ending with `laws` ops"""
+    ops = []
+    tt = t
+    for i in range(R + S):
+        ops.append({"o": "new", "d": i, "t": tt})
+    lww_clock = {}
+    vslots = []
+    if t in ("m", "mm"):
+        inner = rng.choice(["g", "g", "s", "pn", "f", "mv"]) if t == "m" else "m"
+        for k in range(4):
+            ops.append({"o": "new", "d": 10 + k, "t": inner})
+        vslots = [10, 11, 12, 13]
+        inner2 = rng.choice(["g", "s"])
+    used_ts = set()
+    for _ in range(nops):
+        r = rng.randrange(R)
+        n = REPL_NODE[r]
+        x = rng.random()
+        if x < 0.45:  # local op
+            if t == "l":
+                if lww_unique:
+                    ts = rng.choice([-5, 0, 1, 7, 7, 100, 2 ** 62]) + rng.randrange(3)
+                    while (ts, n) in used_ts:
+                        ts += 1
+                    used_ts.add((ts, n))
+                else:
+                    ts = rng.choice([0, 5, 5, 7])
+                ops.append({"o": "lset", "d": r, "s": r, "n": n, "e": rng.randrange(0, NVALS), "ts": ts})
+            elif t == "m":
+                y = rng.random()
+                k = rng.choice([1, 2, 4])
+                if y < 0.35:  # change a nested value then set
+                    vs = rng.choice(vslots)
+                    if inner in ("g", "pn"):
+                        ops.append({"o": rng.choice(["inc", "inc", "dec"]) if inner == "pn" else "inc", "d": vs, "s": vs, "n": n, "v": rng.choice([1, 2, 5, 2 ** 63])})
+                    elif inner == "s":
+                        ops.append({"o": rng.choice(["add", "add", "rem"]), "d": vs, "s": vs, "n": n, "e": rng.choice([1, 2, 5])})
+                    elif inner == "f":
+                        ops.append({"o": "enable", "d": vs, "s": vs})
+                    elif inner == "mv":
+                        ops.append({"o": "mvset", "d": vs, "s": vs, "n": n, "e": rng.choice([1, 2, 5])})
+                    ops.append({"o": "mset", "d": r, "s": r, "n": n, "e": k, "a": vs})
+                elif y < 0.55:  # read-modify-write of the nested value (the usual usage)
+                    ops.append({"o": "mget", "d": 14, "s": r, "e": k})
+                    if inner == "g":
+                        ops.append({"o": "inc", "d": 14, "s": 14, "n": n, "v": rng.choice([1, 2, 7])})
+                    ops.append({"o": "mset", "d": r, "s": r, "n": n, "e": k, "a": 14})
+                elif y < 0.8:
+                    ops.append({"o": "mset", "d": r, "s": r, "n": n, "e": k, "a": rng.choice(vslots)})
+                else:
+                    ops.append({"o": "mrem", "d": r, "s": r, "e": k})
+            elif t == "mm":
+                y = rng.random()
+                k = rng.choice([1, 2])
+                vs = rng.choice(vslots)
+                if y < 0.4:
+                    # build a leaf, put it into an inner map, put the inner map into the outer
+                    ops.append({"o": "new", "d": 14, "t": inner2})
+                    if inner2 == "g":
+                        ops.append({"o": "inc", "d": 14, "s": 14, "n": n, "v": rng.choice([1, 4])})
+                    else:
+                        ops.append({"o": "add", "d": 14, "s": 14, "n": n, "e": rng.choice([1, 2])})
+                    ops.append({"o": "mset", "d": vs, "s": vs, "n": n, "e": rng.choice([4, 5]), "a": 14})
+                    ops.append({"o": "mset", "d": r, "s": r, "n": n, "e": k, "a": vs})
+                elif y < 0.6:
+                    ops.append({"o": "mrem", "d": vs, "s": vs, "e": rng.choice([4, 5])})
+                elif y < 0.85:
+                    ops.append({"o": "mset", "d": r, "s": r, "n": n, "e": k, "a": vs})
+                else:
+                    ops.append({"o": "mrem", "d": r, "s": r, "e": k})
+            else:
+                ops.append(dict(rng.choice(local_ops(t, r, rng))))
+        elif x < 0.60:  # snapshot (a message in flight / an old copy)
+            ops.append({"o": "clone", "d": R + rng.randrange(S), "s": r})
+        elif x < 0.80:  # receive a full state: another replica's current state or an old snapshot
+            src = rng.randrange(R + S)
+            ops.append({"o": "merge", "d": r, "a": r, "b": src})
+        elif x < 0.90 and with_delta:
+            ops.append({"o": "delta", "d": R + rng.randrange(S), "s": r})
+            if rng.random() < 0.7:
+                ops.append({"o": "reset", "s": r})
+        elif x < 0.94 and with_compact and t in ("s", "m", "mm"):
+            ops.append({"o": "compact", "d": r, "s": r})
+        else:
+            ops.append({"o": "clone", "d": r, "s": r})
+    if t != "mm":
+        for _ in range(laws):
+            a, b, c = (rng.randrange(R + S) for _ in range(3))
+            ops.append({"o": "laws", "a": a, "b": b, "c": c})
+    return {"id": pid, "t": t, "kind": "random", "ops": ops}
+
+
+def exhaustive_progs(t, L, R, rng=None, small=True):
+    """all op sequences of length exactly L over R replicas (local ops + pairwise full-state syncs)
+    for type t, each followed by the three rotations of `laws` over replicas (0,1,2 mod R)."""
+    import itertools
+    alpha = []
+    for r in range(R):
+        if t == "m":
+            for k in ([1] if small else [1, 2]):
+                alpha.append([{"o": "mset", "d": r, "s": r, "n": REPL_NODE[r], "e": k, "a": 10 + r}])
+                alpha.append([{"o": "mrem", "d": r, "s": r, "e": k}])
+        elif t == "l":
+            for ts in (5, 6):
+                alpha.append([{"o": "lset", "d": r, "s": r, "n": REPL_NODE[r], "e": 1 + r, "ts": ts}])
+        else:
+            alpha += [[o] for o in local_ops(t, r, None, small=True)]
+        for q in range(R):
+            if q != r:
+                alpha.append([{"o": "merge", "d": r, "a": r, "b": q}])
+    pre = [{"o": "new", "d": i, "t": t} for i in range(3)]
+    if t == "m":
+        for r in range(3):
+            pre.append({"o": "new", "d": 10 + r, "t": "g"})
+            pre.append({"o": "inc", "d": 10 + r, "s": 10 + r, "n": REPL_NODE[r], "v": 1 + r})
+    post = [{"o": "laws", "a": 0, "b": 1, "c": 2}, {"o": "laws", "a": 1, "b": 2, "c": 0}, {"o": "laws", "a": 2, "b": 0, "c": 1}]
+    for seq in itertools.product(alpha, repeat=L):
+        ops = list(pre)
+        for s in seq:
+            ops += [dict(o) for o in s]
+        yield ops + post
